@@ -6,7 +6,7 @@ From Amq Require Import Lib.Base Gen.Consts Model.Heartbeat Proofs.Heartbeat.
 Theorem C17_not_early : forall (evs : list rx_ev) (h : hb) (t : N) (h' : hb), rx_run h evs = (Some t, h') -> mono (h_last h) evs -> exists last : N, last + h_interval h <= t + fudge_ms /\ h_last h' = last /\ (last = h_last h \/ In (RxRead last) evs).
 Proof. exact not_early. Qed.
 
-(* PROMPT: a timer event handled once (interval - 5 ms) have passed since the last read declares the server dead; the timer is armed for last + interval (C17_armed_*) and fires within its latency of that, so this happens by last + 2h + delta *)
+(* PROMPT: a timer event handled once (interval - 5 ms) have passed since the last read declares the server dead; the timer is armed for last + interval (the C17_armed theorems) and fires within its latency of that, so this happens by last + 2h + delta *)
 Theorem C17_prompt : forall (h : hb) (t : N), h_last h + h_interval h <= t + fudge_ms -> h_last h <= t -> fst (hb_fire t h) = true.
 Proof. exact prompt. Qed.
 
